@@ -71,6 +71,11 @@ chk("C16", "loomcheck+sysmc", "model_checking",
     "Trusts loom's scheduling model (sequentially consistent switching at synchronisation points) and that the error table is only reachable through its Mutex; small programs (2-3 threads, <=3 ops).",
     "exhaustive bounded-preemption interleaving exploration (loom) with a linearizability oracle + enumerated error kinds", "DESIGN.md 4/C16")
 
+chk("C15", "treemc", "exploration",
+    "Complete enumeration of the finite configuration product (sysctl x caller identity incl. capability-less root x directory mode x directory owner x link owner x link position incl. links reached through other links); the emulated backend must refuse with EACCES exactly where the kernel backend does for the same user on the same tree; fresh worker processes per sysctl value because the library caches it.",
+    "Needs root and a writable global fs.protected_symlinks (restored on exit; a lock serialises concurrent runs). The kernel backend is the reference.",
+    "exhaustive enumeration of a finite configuration space (differential against the kernel)", "DESIGN.md 4/C15", thorough=False)
+
 not_applicable = [
     {"property_id": "C18", "reason": "relates static artefacts (exported symbols, header, Go/Python binding declarations); there is no behaviour, schedule or state space to enumerate - deciding it is translation validation / static comparison, a different family (DESIGN.md section 5)"},
 ]
